@@ -121,13 +121,34 @@ theorem S62_safe : SafePrimeGroup S62 where
   g_lt := by decide +kernel
   g_order := by decide +kernel
 
+
+/-- a 130-bit set (q - 1 smooth, so the Pratt certificate is short): limb counts between the 62-bit and the 2048-bit sets -/
+def S130 : Params := ⟨1096684572681074249423426611232341077287, 548342286340537124711713305616170538643, 4, 2⟩
+theorem S130_safe : SafePrimeGroup S130 where
+  p_prime := PrattCerts.prime_1096684572681074249423426611232341077287
+  q_prime := PrattCerts.prime_548342286340537124711713305616170538643
+  p_eq := by decide +kernel
+  g_gt := by decide
+  g_lt := by decide +kernel
+  g_order := by decide +kernel
+
+/-- a 256-bit set (q - 1 smooth, so the Pratt certificate is short): limb counts between the 62-bit and the 2048-bit sets -/
+def S256 : Params := ⟨105471767675930315612036171777931760705188871995060243858521972678074607394647, 52735883837965157806018085888965880352594435997530121929260986339037303697323, 4, 2⟩
+theorem S256_safe : SafePrimeGroup S256 where
+  p_prime := PrattCerts.prime_105471767675930315612036171777931760705188871995060243858521972678074607394647
+  q_prime := PrattCerts.prime_52735883837965157806018085888965880352594435997530121929260986339037303697323
+  p_eq := by decide +kernel
+  g_gt := by decide
+  g_lt := by decide +kernel
+  g_order := by decide +kernel
+
 /-- all harness parameter sets -/
-def all : List Params := [S7, S11, S23, S47, S59, S83, S107, S167, S179, S227, S263, S62]
+def all : List Params := [S7, S11, S23, S47, S59, S83, S107, S167, S179, S227, S263, S62, S130, S256]
 
 theorem all_safe : ∀ P ∈ all, SafePrimeGroup P := by
   intro P hP
   simp only [all, List.mem_cons, List.mem_nil_iff, or_false] at hP
-  rcases hP with rfl | rfl | rfl | rfl | rfl | rfl | rfl | rfl | rfl | rfl | rfl | rfl
+  rcases hP with rfl | rfl | rfl | rfl | rfl | rfl | rfl | rfl | rfl | rfl | rfl | rfl | rfl | rfl
   · exact S7_safe
   · exact S11_safe
   · exact S23_safe
@@ -140,6 +161,8 @@ theorem all_safe : ∀ P ∈ all, SafePrimeGroup P := by
   · exact S227_safe
   · exact S263_safe
   · exact S62_safe
+  · exact S130_safe
+  · exact S256_safe
 
 /-- so each of them is a lawful back-end, in every flavour, with no remaining hypothesis -/
 theorem all_lawful (fl : Flavour) : ∀ P ∈ all,
